@@ -498,6 +498,23 @@ fn run_once(line: &str, dir: &PathBuf, quiet: Duration) -> String {
                     Err(e) => note.push_str(&format!("!connect:{}", e.kind())),
                 }
             }
+            b'A' => {
+                // an abortive client: connects, sends its id and is gone at once — TCP: SO_LINGER 0, so the close sends a RST while
+                // the connection still waits in the listen backlog; Unix: a plain close.  accept() still returns such a connection
+                // (Linux keeps it in the queue), so it must reach exactly one service call, which ends by itself.
+                let tok: usize = rest.parse().unwrap();
+                cid += 1;
+                match connect(&run.addrs[tok]) {
+                    Ok(mut c) => {
+                        c.send_id(cid);
+                        if let Client::Tcp(s) = &c {
+                            let _ = socket2::SockRef::from(s).set_linger(Some(Duration::ZERO));
+                        }
+                        drop(c);
+                    }
+                    Err(e) => note = format!("!connect:{}", e.kind()),
+                }
+            }
             b'f' => {
                 let id: u64 = rest.parse().unwrap();
                 if let Some(p) = clients.iter().position(|(c, _)| *c == id) {
